@@ -8,7 +8,12 @@ Inductive case :=
 | CMatch (stream got : bytes)
 | CWs (msgs : list (bool * bytes)) (sizes : list nat) (outs : list (option bytes)) (written frames : list bytes)
 | CWq (ops : list wop)
-| CWqStress (writers per : N) (all : bytes).
+| CWqStress (writers per : N) (all : bytes)
+(* concurrent Writes through the WebSocket transport: the frames the socket received, and how often a
+   frame was begun or finished while another one was open (gorilla allows one writer at a time) *)
+| CWsStress (writers per : N) (frames : list bytes) (overlaps : N)
+(* one publisher's messages on one channel of a real broker, and what each subscriber received *)
+| CFan (sent : list bytes) (recv : list (list bytes)).
 
 Definition blist_eqb := list_eqb bytes_eqb.
 
@@ -127,6 +132,12 @@ Definition check (c : case) : N :=
   | CWqStress writers per all =>
     match records (S (length all)) all with
     | Some seq => bit (order_ok writers per seq) 4
+    | None => 4
+    end
+  | CFan sent recv => bit (forallb (fun g => blist_eqb g sent) recv) 4
+  | CWsStress writers per frames overlaps =>
+    match records (S (length (concat frames))) (concat frames) with
+    | Some seq => bit (order_ok writers per seq && forallb (fun f => len f =? 4) frames && (overlaps =? 0)) 4
     | None => 4
     end
   end.
